@@ -60,8 +60,11 @@ func verifC17Dial() {
 			h.Target = "t1.example"
 			addr = "10.0.0.2:443"
 		}
-		if vBool() {
+		switch vInt(0, 2) {
+		case 1:
 			h.ECH = []byte{0xD0, byte(i)}
+		case 2:
+			h.ECH = []byte{} // an "ech" parameter with an empty value: no usable config list
 		}
 		echOf[addr] = append([]byte(nil), h.ECH...) // snapshot: the record's bytes must never change either
 		res.HTTPS = append(res.HTTPS, h)
@@ -70,10 +73,18 @@ func verifC17Dial() {
 	var calls []vDialCall
 	lastOutcome := -1
 	d := &Dialer[*vDialConn]{RequireECH: requireECH, PublicName: publicName, MaxConcurrency: 1}
+	if vBool() {
+		// a resolver of the Dialer's own must not take precedence over the resolution handed down in the context
+		d.Resolver = &Resolver{}
+		dns.VerifHook_DoH = func(ctx context.Context, msg *dns.Message, URL string) (*dns.Message, error) {
+			vFail("the Dialer resolves nothing itself when the context carries the resolution")
+			return nil, errVTransport
+		}
+	}
 	d.DialFunc = func(ctx context.Context, network, addr string, c *tls.Config) (*vDialConn, error) {
 		ech := c.EncryptedClientHelloConfigList
 		calls = append(calls, vDialCall{addr: addr, serverName: c.ServerName, ech: append([]byte{}, ech...), echNil: ech == nil})
-		vAssert(!requireECH || ech != nil, "RequireECH: no attempt without an ECH config list")
+		vAssert(!requireECH || len(ech) > 0, "RequireECH: no attempt without an ECH config list (an empty list is none)")
 		if callerSN != "" {
 			vAssert(c.ServerName == callerSN, "caller-supplied ServerName is never replaced")
 		} else {
@@ -84,10 +95,10 @@ func verifC17Dial() {
 			vAssert(vBytesEq(ech, retryList), "the retry uses exactly the server's retry configs")
 		} else if callerECH != nil {
 			vAssert(vBytesEq(ech, callerECHSnap), "caller-supplied ECH config list is never replaced")
-		} else if rec, ok := echOf[addr]; ok && rec != nil {
+		} else if rec, ok := echOf[addr]; ok && len(rec) > 0 {
 			vAssert(vBytesEq(ech, rec), "ECH config list is the one of the HTTPS record that produced the address")
 		} else if publicName == "" {
-			vAssert(ech == nil, "no ECH config list invented")
+			vAssert(len(ech) == 0, "no ECH config list invented")
 		} else {
 			// PublicName path: a bootstrap list naming exactly the public name
 			specs, perr := ParseConfigList(ech)
